@@ -339,6 +339,11 @@ Proof.
   destruct C1 as (_ & _ & _ & U1). destruct C2 as (_ & _ & _ & U2). rewrite U1, U2. reflexivity.
 Qed.
 
+(* the two names fits_movnam_hdu compares are in the reserved list read from the current source tree (Generated_fits): the
+   repair of C06:aux-key:EXTNAME-shadows-KNOTSn.  If a clause is removed from reservedFitsKeyword these stop compiling. *)
+Lemma reserved_EXTNAME : reserved s_EXTNAME = true. Proof. vm_compute. reflexivity. Qed.
+Lemma reserved_HDUNAME : reserved s_HDUNAME = true. Proof. vm_compute. reflexivity. Qed.
+
 Lemma hdu_name_primary_none t : forallb (fun kv => aux_key_ok (fst kv)) (t_aux t) = true ->
   hdu_name (primary_cards t) = None.
 Proof.
@@ -348,7 +353,9 @@ Proof.
     - destruct Hn; subst; apply (head_keys_forall (fun k => negb (str_eqb k _))); reflexivity.
     - unfold aux_cards. rewrite forallb_forall in *. intros c Hc. apply in_map_iff in Hc as ([k v] & <- & Hin).
       specialize (W _ Hin). cbn [fst snd str_card card_key] in *. unfold aux_key_ok in W.
-      repeat (apply andb_true_iff in W; destruct W as [W ?]). destruct Hn; subst; auto. }
+      apply andb_true_iff in W as [_ W]. apply negb_true_iff in W.
+      destruct (str_eqb k nm) eqn:E; [|reflexivity]. apply str_eqb_eq in E. subst k.
+      destruct Hn; subst nm; [rewrite reserved_EXTNAME in W | rewrite reserved_HDUNAME in W]; discriminate. }
   rewrite !H; auto.
 Qed.
 
